@@ -39,6 +39,15 @@ func main() {
 		os.Exit(cmdCheck(os.Args[2:]))
 	case "matrix":
 		os.Exit(cmdMatrix(os.Args[2:]))
+	case "refnames":
+		// regenerate sa/refnames.json from the reference tree (then rebuild)
+		repo := "/repo"
+		if len(os.Args) > 2 {
+			repo = os.Args[2]
+		}
+		abs, _ := filepath.Abs(repo)
+		os.Stdout.Write(buildRefNames(loadProgram(abs, "", nil)))
+		os.Exit(0)
 	case "explain":
 		os.Exit(cmdExplain(os.Args[2:]))
 	case "debug":
